@@ -1,7 +1,23 @@
-import os
+"""BinPack: rules written from docs/environments/bin_pack.md, the BinPack class docstring and reward.py docstrings.
 
-from jsim.envs.base import Adapter
+One container, items are axis-aligned boxes (x_len, y_len, z_len), integer millimetres. The free space is kept as a
+table of empty maximal spaces (EMS: x1,x2,y1,y2,z1,z2). The agent is shown the `obs_num_ems` largest EMSs (by volume);
+an action [i, j] places item j with its bottom-left corner at the origin (x1, y1, z1) of the EMS shown in slot i (the
+state records which table entry is shown in slot i in `sorted_ems_indexes`). The action is valid iff item j is a real
+item of the instance, is not packed yet, slot i holds an active EMS and the item is not larger than the EMS on any
+axis. An invalid action is not taken and ends the episode (reward 0 dense / current utilisation sparse,
+`extras["invalid_action"]`); otherwise the episode ends when no action can be performed any more. Return = volume
+utilisation of the container.
+"""
+from __future__ import annotations
+
+import os
+from typing import Any, Dict, List, Optional, Tuple
+
+import numpy as np
+
 from jsim.envs._mk import cfg
+from jsim.envs.base import Adapter
 
 CSV_TEXT = """Item_Name,Length,Width,Height,Quantity
 shape_1,1080,760,300,5
@@ -9,12 +25,41 @@ shape_2,1100,430,250,3
 shape_3,600,600,600,2
 """
 
+COORDS = ("x1", "x2", "y1", "y2", "z1", "z2")
+
+
+def _space(sp: Any) -> np.ndarray:
+    """(..., 6) int64 array x1,x2,y1,y2,z1,z2 of a Space with integer leaves."""
+    return np.stack([np.asarray(getattr(sp, k)).astype(np.int64) for k in COORDS], axis=-1)
+
+
+def _items(it: Any) -> np.ndarray:
+    """(N, 3) int64 array of item lengths."""
+    return np.stack([np.asarray(it.x_len), np.asarray(it.y_len), np.asarray(it.z_len)], axis=-1).astype(np.int64)
+
+
+def _locs(loc: Any) -> np.ndarray:
+    return np.stack([np.asarray(loc.x), np.asarray(loc.y), np.asarray(loc.z)], axis=-1).astype(np.int64)
+
+
+def _dims(sp6: np.ndarray) -> np.ndarray:
+    return sp6[..., [1, 3, 5]] - sp6[..., [0, 2, 4]]
+
+
+def _vol(d3: np.ndarray) -> List[int]:
+    """Exact volumes (Python ints: 5870*2330*2200 overflows int32 and loses bits in float32)."""
+    return [int(a) * int(b) * int(c) for a, b, c in np.asarray(d3).reshape(-1, 3)]
+
 
 class A(Adapter):
     name = "BinPack"
     mask_mode = "joint"
     terminate_on_invalid = True
     fork_every = 4
+    has_invalid_effect = True
+    has_constraints = True
+    has_objective = True
+    has_observer = True
 
     def configs(self):
         return [
@@ -47,3 +92,199 @@ class A(Adapter):
 
     def horizon(self, env, c):
         return int(env.generator.max_num_items)
+
+    # ---- rules ---------------------------------------------------------------------------------
+    @staticmethod
+    def _shown(s: Any, env: Any) -> np.ndarray:
+        """State-table index of the EMS shown in each observed slot."""
+        return np.asarray(s.sorted_ems_indexes).astype(np.int64)[: int(env.obs_num_ems)]
+
+    def legal(self, s: Any, env: Any) -> np.ndarray:
+        shown = self._shown(s, env)
+        ems = _space(s.ems)[shown]  # (obs, 6)
+        active = np.asarray(s.ems_mask).astype(bool)[shown]
+        room = _dims(ems)  # (obs, 3)
+        it = _items(s.items)  # (N, 3)
+        fits = (it[None, :, :] <= room[:, None, :]).all(axis=-1)
+        open_item = np.asarray(s.items_mask).astype(bool) & ~np.asarray(s.items_placed).astype(bool)
+        return active[:, None] & open_item[None, :] & fits
+
+    def describe(self, s, env, idx):
+        i, j = idx
+        e = int(self._shown(s, env)[i])
+        sp = _space(s.ems)[e]
+        return (f"slot {i} -> EMS {e} active={bool(np.asarray(s.ems_mask)[e])} dims={_dims(sp).tolist()} origin={sp[[0, 2, 4]].tolist()}; "
+                f"item {j} dims={_items(s.items)[j].tolist()} valid={bool(np.asarray(s.items_mask)[j])} placed={bool(np.asarray(s.items_placed)[j])}")
+
+    @staticmethod
+    def _utilisation(s: Any) -> float:
+        cont = _vol(_dims(_space(s.container)))[0]
+        vols = _vol(_items(s.items))
+        placed = np.asarray(s.items_placed).astype(bool)
+        return float(sum(v for v, p in zip(vols, placed) if p)) / float(cont)
+
+    # ---- C05 -------------------------------------------------------------------------------------
+    PROBLEM_FIELDS = ("container", "ems", "ems_mask", "items", "items_mask", "items_placed", "items_location")
+
+    def invalid_effect(self, ps, action, illegal, s, ts, env, cfg):
+        if int(ts.step_type) != 2:
+            return ("invalid_move_not_terminal", f"step_type {int(ts.step_type)} after an invalid action")
+        want = 0.0 if cfg["rew"] == "dense" else self._utilisation(ps)
+        if not np.isclose(float(ts.reward), want, rtol=1e-5, atol=1e-6):
+            return ("invalid_move_reward", f"reward {float(ts.reward)} expected {want} ({cfg['rew']} reward, invalid action)")
+        if float(ts.discount) != 0.0:
+            return ("invalid_move_discount", f"discount {float(ts.discount)} != 0 on the terminal step")
+        ex = getattr(ts, "extras", None)
+        if isinstance(ex, dict) and "invalid_action" in ex and not bool(ex["invalid_action"]):
+            return ("invalid_flag_not_set", "extras['invalid_action'] is False after an invalid action")
+        from jsim import util
+
+        for f in self.PROBLEM_FIELDS:
+            d = util.tree_diff(getattr(ps, f), getattr(s, f))
+            if d:
+                return ("problem_state_touched", f"state.{f} changed by an invalid action: {d[:3]}")
+        return None
+
+    # ---- C06 -------------------------------------------------------------------------------------
+    def constraints(self, hist, env, cfg):
+        s = hist[-1].state
+        chosen: Dict[int, Tuple[np.ndarray, int, int]] = {}
+        for rec in hist[1:]:
+            i, j = int(rec.action[0]), int(rec.action[1])
+            ps = rec.prev_state
+            e = int(self._shown(ps, env)[i])
+            if j in chosen:
+                return ("item_packed_twice", f"item {j} was chosen at step {chosen[j][2]} and again at step {rec.t}")
+            chosen[j] = (_space(ps.ems)[e][[0, 2, 4]], e, rec.t)
+        placed = np.flatnonzero(np.asarray(s.items_placed).astype(bool)).tolist()
+        if placed != sorted(chosen):
+            return ("placed_set_differs_from_history", f"items_placed {placed} but the actions packed {sorted(chosen)}")
+        valid = np.asarray(s.items_mask).astype(bool)
+        it = _items(s.items)
+        loc = _locs(s.items_location)
+        cont = _space(s.container)
+        lo = loc[placed]  # (P, 3)
+        hi = lo + it[placed]
+        for n, j in enumerate(placed):
+            if not valid[j]:
+                return ("padding_item_packed", f"item {j} is not an item of the instance (items_mask False) but is packed")
+            origin, e, t = chosen[j]
+            if not np.array_equal(lo[n], origin):
+                return ("item_not_at_ems_origin", f"item {j} is at {lo[n].tolist()} but the EMS chosen at step {t} (table index {e}) "
+                        f"had origin {origin.tolist()}")
+            if (lo[n] < cont[[0, 2, 4]]).any() or (hi[n] > cont[[1, 3, 5]]).any():
+                return ("item_outside_container", f"item {j} occupies {lo[n].tolist()}..{hi[n].tolist()}, container {cont.tolist()}")
+        if len(placed) > 1:
+            # two boxes overlap iff their open intervals intersect on all three axes (exact integers)
+            inter = (lo[:, None, :] < hi[None, :, :]) & (lo[None, :, :] < hi[:, None, :])
+            ov = inter.all(axis=-1)
+            np.fill_diagonal(ov, False)
+            if ov.any():
+                a, b = np.argwhere(ov)[0]
+                return ("items_overlap", f"items {placed[a]} {lo[a].tolist()}..{hi[a].tolist()} and {placed[b]} {lo[b].tolist()}..{hi[b].tolist()} overlap")
+        if len(hist) > 1 and int(hist[-1].ts.step_type) == 2:
+            # the played action was masked in, so this end is the documented "no action can be performed, i.e. no items fit
+            # in any EMSs, or all items have been packed". Actions only exist for the EMSs shown to the agent, so "any EMS" is
+            # read as "any EMS of the action space" (narrow reading: with obs_num_ems < max_num_ems a hidden EMS is not an action).
+            m = self.legal(s, env)
+            if m.any():
+                i, j = np.argwhere(m)[0]
+                return ("ended_although_an_item_still_fits", f"episode ended after a valid action but action [{i},{j}] is still possible: "
+                        + self.describe(s, env, (int(i), int(j))))
+        return None
+
+    # ---- C08 -------------------------------------------------------------------------------------
+    def objective(self, hist, env, cfg):
+        return self._utilisation(hist[-1].state)
+
+    def sparse_twin(self, c):
+        other = "sparse" if c["rew"] == "dense" else "dense"
+        d = dict(c)
+        d["rew"] = other
+        d["id"] = f"{c['id']}~{other}"
+        d["quick"] = False
+        return d
+
+    # ---- C12 -------------------------------------------------------------------------------------
+    def observe(self, s, obs, env, cfg):
+        n_obs = int(env.obs_num_ems)
+        norm = bool(cfg["norm"])
+        cont = _dims(_space(s.container)).astype(np.float64)  # container lengths per axis
+        table = _space(s.ems)
+        active = np.asarray(s.ems_mask).astype(bool)
+        shown = self._shown(s, env)
+        o_mask = np.asarray(obs.ems_mask)
+        if o_mask.shape != (n_obs,):
+            return ("ems_mask_shape", f"{o_mask.shape} expected {(n_obs,)}")
+        o_mask = o_mask.astype(bool)
+        o_ems = np.stack([np.asarray(getattr(obs.ems, k)) for k in COORDS], axis=-1)  # (obs, 6)
+        o_items = np.stack([np.asarray(obs.items.x_len), np.asarray(obs.items.y_len), np.asarray(obs.items.z_len)], axis=-1)
+        want_kind = "f" if norm else "i"
+        for nm, arr in (("ems", o_ems), ("items", o_items)):
+            if arr.dtype.kind != want_kind:
+                return (f"{nm}_dtype", f"observation {nm} have dtype {arr.dtype} with normalize_dimensions={norm}")
+        scale6 = np.repeat(cont, 2) if norm else np.ones(6)
+        scale3 = cont if norm else np.ones(3)
+        # every EMS shown as valid is an active EMS of the state, scaled per axis; slot i shows the table entry the state
+        # records for slot i (that is the EMS an action [i, .] refers to)
+        want_ems = table[shown] / scale6
+        if not np.array_equal(o_mask, active[shown]):
+            i = int(np.flatnonzero(o_mask != active[shown])[0])
+            return ("ems_mask", f"slot {i}: ems_mask {bool(o_mask[i])} but state EMS {int(shown[i])} active={bool(active[shown][i])}")
+        for i in np.flatnonzero(o_mask):
+            ok = np.isclose(o_ems[i], want_ems[i], rtol=1e-5, atol=1e-6) if norm else (o_ems[i] == want_ems[i])
+            if not np.all(ok):
+                return ("ems_coordinates", f"slot {int(i)} shows {o_ems[i].tolist()} but state EMS {int(shown[i])} is {table[shown[i]].tolist()}"
+                        f" (container lengths {cont.tolist()}, normalize={norm})")
+        # the shown valid EMSs are the largest ones: multiset of volumes == top-k active volumes (tie order is free; the
+        # env ranks float32 volumes, so volumes closer than float32 resolution may swap at the cut -> tolerance)
+        all_v = sorted((float(v) for v in _vol(_dims(table[active]))), reverse=True)
+        k = min(n_obs, len(all_v))
+        got_v = sorted((float(v) for v in _vol(_dims(table[shown][o_mask]))), reverse=True)
+        if len(got_v) != k:
+            return ("number_of_ems_shown", f"{len(got_v)} valid EMSs shown, state has {len(all_v)} active and obs_num_ems={n_obs}")
+        if len(set(shown[o_mask].tolist())) != len(got_v):
+            return ("ems_shown_twice", f"shown table indexes {shown[o_mask].tolist()} repeat an EMS")
+        if k and not np.allclose(got_v, all_v[:k], rtol=2e-6, atol=0):
+            return ("not_the_largest_ems", f"volumes shown {got_v} but the {k} largest active volumes are {all_v[:k]}")
+        want_items = _items(s.items) / scale3
+        ok = np.isclose(o_items, want_items, rtol=1e-5, atol=1e-6) if norm else (o_items == want_items)
+        if o_items.shape != want_items.shape or not np.all(ok):
+            j = int(np.argwhere(~np.asarray(ok))[0][0]) if o_items.shape == want_items.shape else -1
+            return ("items", f"item {j}: observation {o_items[j].tolist() if j >= 0 else o_items.shape} vs state {_items(s.items)[j].tolist()} "
+                    f"(container lengths {cont.tolist()}, normalize={norm})")
+        for f in ("items_mask", "items_placed"):
+            if not np.array_equal(np.asarray(getattr(obs, f)), np.asarray(getattr(s, f))):
+                return (f, f"observation.{f} {np.asarray(getattr(obs, f)).tolist()} vs state {np.asarray(getattr(s, f)).tolist()}")
+        am = np.asarray(obs.action_mask)
+        if am.shape != (n_obs, o_items.shape[0]) or not np.array_equal(am.astype(bool), np.asarray(s.action_mask).astype(bool)):
+            return ("action_mask", "observation.action_mask != state.action_mask")
+        # the mask speaks about the *shown* list: a valid entry must name a shown valid EMS and an open item that fits in it,
+        # judged on the numbers the agent sees
+        dims_seen = o_ems[:, [1, 3, 5]] - o_ems[:, [0, 2, 4]]
+        tol = 1e-6 if norm else 0
+        fit_seen = (o_items[None, :, :] <= dims_seen[:, None, :] + tol).all(axis=-1)
+        bad = am.astype(bool) & ~(o_mask[:, None] & fit_seen & np.asarray(obs.items_mask).astype(bool)[None, :]
+                                  & ~np.asarray(obs.items_placed).astype(bool)[None, :])
+        if bad.any():
+            i, j = np.argwhere(bad)[0]
+            return ("action_mask_vs_shown_list", f"action_mask[{i},{j}] is True but by the observation itself the item does not fit / is not open "
+                    f"/ the slot is not valid (slot dims {dims_seen[i].tolist()}, item {o_items[j].tolist()})")
+        return None
+
+    # ---- policies ----------------------------------------------------------------------------------
+    def policy_complete(self, s, env, rng, legal):
+        """Greedy: the largest open item that fits, into the tightest shown EMS."""
+        if legal is None or not legal.any():
+            return None
+        cand = np.argwhere(legal)
+        iv = _vol(_items(s.items))
+        ev = _vol(_dims(_space(s.ems)[self._shown(s, env)]))
+        order = rng.permutation(len(cand))
+        best, best_key = None, None
+        for n in order:
+            i, j = int(cand[n][0]), int(cand[n][1])
+            key = (-iv[j], ev[i])
+            if best_key is None or key < best_key:
+                best, best_key = [i, j], key
+        return best
